@@ -1,0 +1,16 @@
+//go:build verif
+
+// Contracts for the reference crypto helpers (C19), read by the verifier in /verif (govc).  Comments only.
+// What is decided: signatures this package produces are 64 bytes, which is what Verify reads; Verify does not
+// read beyond the 64 bytes it requires.  ECDSA and SHA-256 themselves are Go's and are not modelled.
+
+package crypto
+
+//@ runtags [C19]
+
+//@ func (ECDSAPriv).Sign
+//@   ensures [C19] @sixtyFourBytes implies(result1 == nil, len(result0) == 64)
+//@ func (ECDSAPub).Verify
+//@   requires len(sig) >= 64
+//@ func Hash160
+//@   nopanic
